@@ -150,6 +150,17 @@ def run(tier):
             seen.add(k)
             uniq.append(e)
     replay_population(ctx, uniq, "simulated ops<=5")
+    from .. import longunit
+    from .c16 import LISTS
+    kinds = ["args", "init_items"]
+    jobs = longunit.list_jobs(kinds, {k: LISTS[k][2] for k in kinds}, rnd, 8 if tier == "quick" else 80)
+    nl = 0
+    for cnt, bad in pmap(longunit.check_list, jobs, chunk=4):
+        nl += cnt
+        for sig, text in bad:
+            ctx.fail("long list: " + sig, dict(kind="list", text=text))
+    ctx.count(len(jobs), nontrivial=len(jobs), traces=nl)
+    ctx.note("long_lists", dict(lists=len(jobs), items=nl))
     ctx.cov["exhaustive"] = True
     ctx.note("exhaustive_scope", "all trees within the MaxOps bounds listed in tlc_runs; simulation beyond")
     ctx.assumptions += ["the level table in spec/CExpr.tla is C99 6.5 (independent of the parser)",
@@ -159,6 +170,9 @@ def run(tier):
 
 def replay(path):
     r = json.load(open(path))["replay"]
+    if r.get("kind") == "list":
+        print("replay: a long list (text in the file); the comparison with its items parsed alone is made by re-running the check")
+        return 0
     f = check_one(r["case"], [r["ctx"]])
     for cname, sig, src in f:
         print("VIOLATION property=C02 replay=%s" % path)
